@@ -18,6 +18,8 @@ def oracle(line: str, obs: Obs):
     cfg = parse_cfg(line)
     fails = []
     ever_connected = set()
+    orphan_by_cer, orphaned_seen = set(), set()
+    had_two = set()          # peers that have had two live connections at once (a dialled one and one they opened themselves)
     ce_count = {}
     dialled_name = {}
     for ev, lines in obs.blocks:
@@ -54,6 +56,16 @@ def oracle(line: str, obs: Obs):
         live = {k: c for k, c in conns.items() if c["live"] == "1" and c["state"] != "CLOSED"}
         for p, pd in peers.items():
             mine = [k for k, c in live.items() if of_peer(c, p)]
+            if len(mine) >= 2:
+                had_two.add(p)
+            if pd["conn"] == "-" and mine and t[0] == "rx" and len(t) == 3 and ":".join(t[2].split(":")[:2]) in ("CE:128", "257:128") \
+                    and p not in orphaned_seen:
+                orphan_by_cer.add(p)
+            if pd["conn"] == "-" and mine:
+                orphaned_seen.add(p)
+            elif pd["conn"] != "-":
+                orphaned_seen.discard(p)
+                orphan_by_cer.discard(p)
             if pd["conn"] != "-":
                 ever_connected.add(p)
                 c = conns.get(pd["conn"])
@@ -62,7 +74,10 @@ def oracle(line: str, obs: Obs):
                                   "event": ev[:200], "real": f"PEER {p} {pd} / CONN {pd['conn']} {c}"})
             elif mine:
                 fails.append({"what": "a live connection of the peer exists but peer.connection is unset",
-                              "event": ev[:200], "real": f"PEER {p} {pd} / live {mine}"})
+                              "event": ev[:200], "real": f"PEER {p} {pd} / live {mine}",
+                              # the recorded finding: the peer's *current* connection ended (loss, timeout, DPR/DPA) while its
+                              # second one lives on -- not: the node itself gave the first one up when the second one's CER came
+                              "sig": "second_connection_orphaned" if (p in had_two and p not in orphan_by_cer) else None})
             if pd["conn"] == "-" and p in ever_connected and (pd["reason"] == "-" or pd["disc"] != "1"):
                 fails.append({"what": "peer connection removed but disconnect reason / time not set", "event": ev[:200],
                               "real": f"PEER {p} {pd}"})
@@ -113,6 +128,20 @@ def scenarios(rng: random.Random, tier: str):
     out.append(nodegen.CONFIGS["basic"] + " | start | " + " | ".join(
         f"acc | rx {i} " + nodegen.cer("stranger.x", "4", n(), n()) for i in range(4)) + " | tick")
     out.append(nodegen.CONFIGS["out"] + " | start fail,fail | adv 6 | dial fail,ok | adv 6")
+    # one application whose peers sit in different realms: it stays ready while any of them has a ready connection
+    xr = ("NODE host=node.local;realm=realm.local;peer:peer1.x,realm.local,0,0,30,1,0,-,-,-,-;"
+          "peer:peer2.x,realm.b,0,0,30,1,0,-,-,-,-;peer:peer3.x,realm.c,0,0,30,1,0,-,-,-,-;"
+          "app:4,1,0,b,0,0+1,-;app:3,0,1,b,0,1+2,extra.realm")
+    for gone in ("eof 1", "eof 0", "eof 2", "rx 1 " + nodegen.dpr(n(), n(), "peer2.x") + " | eof 1"):
+        out.append(xr + " | start | " + " | ".join(f"acc | rx {k} " + nodegen.cer(f"peer{k + 1}.x", "4+3", n(), n(), extra=",acct=3")
+                                                   for k in range(3)) + f" | {gone} | tick")
+    # the node's name sorts after the peer's (RFC 6733 5.6.4 elections compare the names): a second connection of a connected peer
+    hi = nodegen.CONFIGS["two"].replace("host=node.local", "host=zz.local")
+    out.append(hi + " | start | acc | rx 0 " + nodegen.cer("peer1.x", "4", n(), n()) + " | acc | rx 1 " +
+               nodegen.cer("peer1.x", "4", n(), n()) + " | tick | rx 1 " + nodegen.dwr(n(), n()) + " | tick")
+    # recorded finding (second_connection_orphaned): a dialled peer also connects by itself, then the dialled connection ends
+    out.append(nodegen.CONFIGS["out"] + " | start ok,ok | acc | rx 2 " + nodegen.cer("peer2.x", "4+3", n(), n(), extra=",acct=3") +
+               " | eof 1 | tick")
     # a configured peer announcing its identity in another spelling
     for spell in ("Peer1.X", "PEER1.X", "peer1.X"):
         out.append(two + " | start | acc | rx 0 " + nodegen.cer(spell, "4", n(), n()) + " | tick | rx 0 " + nodegen.dwr(n(), n(), spell) +
@@ -160,7 +189,7 @@ def run(res: Result, tier: str, seed: int):
 
 
 def signature(f: dict):
-    return None
+    return f.get("sig")
 
 
 def search(res: Result, seed: int, broken) -> list:
